@@ -94,7 +94,11 @@ fn jobs_for(prop: &'static str, thorough: bool, scale: f64) -> (Vec<Job>, &'stat
         "C06" | "C08" => (vec![mk("stream", 1.0)], "exploration"),
         "C13" => (vec![mk("threads", 1.0)], "exploration"),
         "C18" => (vec![mk("threads", 1.0)], "fault_enumeration"),
-        "C14" | "C19" => (vec![mk("vtime", 1.0)], "exploration"),
+        "C14" => (vec![mk("vtime", 1.0)], "exploration"),
+        // The base time lives in an AtomicBaseTime that concurrent observers and
+        // scanners update: its monotonic filter under overlapping writers is
+        // part of "never decreases".
+        "C19" => (vec![mk("vtime", 1.0), mk("threads", 0.3)], "exploration"),
         "C05" => {
             let mut jobs = vec![mk("iovec", 0.7), mk("codec", 0.6), mk("stream", 0.4)];
             if thorough {
